@@ -2418,6 +2418,11 @@ class Wallet(object):
                                                       network, address_index, witness_type))
             return new_ms_keys if new_ms_keys else None
 
+        if self.main_key.depth and not self.parent_id and account_id != self.main_key.account_id and \
+                ("account'" not in key_path or key_path.index("account'") <= self.main_key.depth):
+            raise WalletError("The main key of this wallet is the key of account %d (depth %d), cannot create keys for "
+                              "account %d" % (self.main_key.account_id, self.main_key.depth, account_id))
+
         # Check for closest ancestor in wallet
         wpath = fullpath
         if self.main_key.depth and fullpath and fullpath[0] != 'M':
